@@ -31,7 +31,7 @@ def loop():
     return _loop
 
 
-def impl_run(segs, lim):
+def impl_run(segs, lim, auto_decompress=False):
     """Feed the segments to a fresh HttpRequestParser. Returns the canonical observable:
     {"outcome": "OK:<hex>" | "ERR:<Class>@i" | "ESCAPE:<Class>@i", "msgs": [...], "state": {...}}
     Messages returned by calls before a raising call are kept; a raising call returns none."""
@@ -41,7 +41,7 @@ def impl_run(segs, lim):
     proto = mock.Mock()
     proto._reading_paused = False
     p = HttpRequestParser(proto, loop(), 2 ** 22, max_line_size=ml, max_field_size=mf, max_headers=mh,
-                          auto_decompress=False, max_msg_queue_size=mq)
+                          auto_decompress=auto_decompress, max_msg_queue_size=mq)
     got = []
     outcome = "OK:-"
     left = b""
@@ -403,7 +403,7 @@ def segmentations(rng, s, quick=True):
 # ----------------------------------------------------------------------------
 # response parser (lax mode; not modelled in Coq: used for implementation self-consistency oracles)
 
-def impl_run_response(segs, lim, method="GET", read_until_eof=True, eof=True):
+def impl_run_response(segs, lim, method="GET", read_until_eof=True, eof=True, auto_decompress=False):
     # the client builds its parser through ResponseHandler.set_response_params, which never passes
     # `method`: HEAD is expressed as response_with_body=False.  We do the same.
     from aiohttp.http_parser import HttpResponseParser
@@ -412,7 +412,7 @@ def impl_run_response(segs, lim, method="GET", read_until_eof=True, eof=True):
     proto = mock.Mock()
     proto._reading_paused = False
     p = HttpResponseParser(proto, loop(), 2 ** 22, max_line_size=ml, max_field_size=mf, max_headers=mh,
-                           auto_decompress=False, read_until_eof=read_until_eof,
+                           auto_decompress=auto_decompress, read_until_eof=read_until_eof,
                            response_with_body=method != "HEAD")
     got = []
     outcome = "OK:-"
@@ -530,7 +530,8 @@ def limit_edge_streams(rng, lim):
     position.  Yields (stream, position, delta, cuts) with cuts = read boundaries around that line's CRLF."""
     ml, mf, mh, _ = lim
     out = []
-    for pos in ("request-line", "field", "field-name", "chunk-size", "chunk-ext", "trailer", "header-count", "trailer-count"):
+    for pos in ("request-line", "field", "field-name", "chunk-size", "chunk-ext", "trailer", "header-count", "trailer-count",
+                "header-count-chunked"):
         for delta in (-1, 0, 1):
             pre = b""
             if rng.random() < 0.3:
@@ -566,6 +567,16 @@ def limit_edge_streams(rng, lim):
                 head = b"POST / HTTP/1.1\r\nHost: x\r\nTransfer-Encoding: chunked\r\n\r\n3\r\nabc\r\n0\r\n"
                 s = head + line + b"\r\n\r\n"
                 mark = len(pre) + len(head) + len(line)
+            elif pos == "header-count-chunked":
+                # a chunked message without trailers whose head uses max_headers + delta lines (request line,
+                # fields, empty line): the budget left for the trailer section is 0 / 1 / exhausted
+                k = mh + delta - 4
+                if k < 0:
+                    continue
+                head = (b"POST / HTTP/1.1\r\nHost: x\r\nTransfer-Encoding: chunked\r\n"
+                        + b"".join(b"X-%d: v\r\n" % i for i in range(k)) + b"\r\n")
+                s = head + b"3\r\nabc\r\n0\r\n\r\n"
+                mark = len(pre) + len(s) - 2           # right after "0 CRLF"; mark+1 is between the final CR and LF
             elif pos == "header-count":
                 k = mh + delta - 2          # request line + k fields + Host + empty line
                 s = b"GET / HTTP/1.1\r\nHost: x\r\n" + b"".join(b"X-%d: v\r\n" % i for i in range(max(0, k - 1))) + b"\r\n"
